@@ -10,9 +10,11 @@ REQUIRED = ["CifModel.C19_list_is_sequence", "CifModel.C19_table_is_map", "CifMo
             "CifModel.C16_map_heap_safe", "CifModel.C16_map_set_item_heap_safe", "CifModel.C16_map_remove_item_heap_safe",
             "CifModel.C16_cex_F10_pinned", "CifModel.C19_clone_onto_repaired", "CifModel.C19_set_replaces_in_place"]
 GEN = ["ErrCodes", "ValueCols"]
-FAMILIES = ["val"]
+FAMILIES = ["val", "valheap"]
 TRUSTED_BASE = [
     "Lean 4.33.0 kernel; axioms propext, Classical.choice, Quot.sound only (audited per theorem on every run)",
+    "uthash allocates exactly two blocks (table, bucket array) while a map is non-empty and none otherwise (family valheap "
+    "observes it; bucket expansion above 320 entries is not reached)",
     "uthash as an insertion-ordered map (HASH_ADD appends to the application order, HASH_FIND finds the entry of a key, "
     "HASH_DEL removes it) — observed by family val",
     "key normalisation is a parameter of the model (`norm`); the requests carry the normalised forms, computed by Python's "
@@ -33,8 +35,10 @@ PARTIAL = [
     "NOT stated at heap level: cif_packet_create for a whole name list (per name: "
     "packetEntryCreate_spec), cif_map_get_keys (allocates an array of borrowed pointers), convert_to_standalone (unreachable "
     "through the public API: every map the API hands out is standalone), the aliasing cases of cif_value_clone onto a related object (pure level only: C19_clone_onto_repaired), allocation failures (property C17)",
-    "the heap model is a model: that value.c / map.c / packet.c follow it is observed by family val under ASan (use-after-free, "
-    "double free, invalid free abort the case) and by the leak sweep of C16 over the same request streams",
+    "the heap model is tied to value.c / map.c / packet.c by family valheap: for every operation of the same random sequences "
+    "the change in the number of live blocks reported by the allocation tracker (harness/alloc.h) equals the change the heap "
+    "model predicts (model cells + 2 blocks per non-empty uthash map), and everything is released at the end; block CONTENTS "
+    "and addresses are not compared (ASan/UBSan watch the accesses)",
 ]
 LEVEL_TEXT = ("Proof about an executable Lean model at two levels. Pure level: list operations are the sequence operations with exactly "
               "the documented CIF_INVALID_INDEX conditions; table and packet operations refine an abstract map keyed by the normalised "
